@@ -44,8 +44,102 @@ NEG = {  # seeded defect -> invariants that may reject it
 BNEG = {"gohtml_err_put_noreset", "release_noreset"}   # RenderIOBytes.tla: seeded defects of the bytes.Buffer pool protocol
 
 
-SYNTHETIC_BAD_TRACE = "".join(json.dumps(dict(seq=i + 1, ev=ev, pool="runtime", buf=b, g=1, r=1, w=1, dirty=False, err="")) + "\n"
-                              for i, (ev, b) in enumerate([("begin", 0), ("acquire", 1), ("existing", 1), ("release", 1), ("flush", 1), ("end", 0)]))
+def _sev(ev, buf=None, r=1, w=None, dirty=None):
+    d = {"ev": ev, "r": r}
+    if buf is not None:
+        d["buf"] = buf
+    if w is not None:
+        d["w"] = w
+    if dirty is not None:
+        d["dirty"] = dirty
+    return d
+
+
+# Trace self-test: a hand-made trace with mixed event kinds (begin/end carry no buf/w/dirty field) in which every
+# violation kind of TraceRenderPool.tla occurs exactly where listed, and a clean trace that must be accepted.
+SELFTEST_TRACE = [
+    (_sev("begin", r=1), None),
+    (_sev("acquire", 1, 1, 1, True), "NoCarryOver.DirtyAcquire"),
+    (_sev("flush", 1, 1, 1, False), None),
+    (_sev("release", 1, 1, 1, False), None),
+    (_sev("end", r=1), None),
+    (_sev("begin", r=2), None),
+    (_sev("get", 2, 2, dirty=True), "NoCarryOver.DirtyBytesBuffer"),
+    (_sev("put", 2, 2, dirty=True), "NoCarryOver.PutWithoutReset"),
+    (_sev("end", r=2), None),
+    (_sev("begin", r=3), None),
+    (_sev("acquire", 1, 3, 2, False), "NoCarryOver.WrongWriter"),
+    (_sev("acquire", 3, 3, 3, False), "OneOwner.SecondAcquire"),
+    (_sev("existing", 4, 3, 3), "ExclusiveBuffer.UseNotHeld"),
+    (_sev("release", 1, 3, 3), None),
+    (_sev("flush", 1, 3, 3), "ExclusiveBuffer.UseAfterRelease"),
+    (_sev("end", r=3), "OneOwner.HeldAfterReturn"),
+    (_sev("begin", r=4), None),
+    (_sev("get", 2, 4, dirty=False), None),
+    (_sev("begin", r=5), None),
+    (_sev("get", 2, 5, dirty=False), "ExclusiveBuffer.BytesAcquireWhileHeld"),
+    (_sev("put", 2, 4, dirty=False), "ExclusiveBuffer.BytesReleaseNotHeld"),
+    (_sev("put", 2, 5, dirty=False), None),
+    (_sev("put", 2, 5, dirty=False), "ExclusiveBuffer.BytesReleaseNotHeld"),
+    (_sev("end", r=4), None),
+    (_sev("end", r=5), None),
+    (_sev("begin", r=6), None),
+    (_sev("begin", r=6), "Harness.RenderBeginTwice"),
+    (_sev("acquire", 5, 6, 6, False), None),
+    (_sev("begin", r=7), None),
+    (_sev("acquire", 5, 7, 7, False), "ExclusiveBuffer.AcquireWhileHeld"),
+    (_sev("release", 5, 6, 6), "ExclusiveBuffer.ReleaseNotHeld"),
+    (_sev("release", 5, 7, 7), None),
+    (_sev("end", r=6), None),
+    (_sev("end", r=7), None),
+]
+SELFTEST_CLEAN = [_sev("begin", r=1), _sev("acquire", 1, 1, 1, False), _sev("existing", 1, 1, 1), _sev("get", 2, 1, dirty=False),
+                  _sev("put", 2, 1, dirty=False), _sev("flush", 1, 1, 1), _sev("release", 1, 1, 1), _sev("end", r=1),
+                  _sev("begin", r=2), _sev("acquire", 1, 2, 2, False), _sev("flush", 1, 2, 2), _sev("release", 1, 2, 2), _sev("end", r=2)]
+
+
+def trace_selftest(ck, cfgtext):
+    """Every violation kind of the trace spec must fire at exactly the planted lines, whatever other events surround it."""
+    want = [{"line": i + 1, "kind": k} for i, (_, k) in enumerate(SELFTEST_TRACE) if k]
+    bad = "".join(json.dumps(e) + "\n" for e, _ in SELFTEST_TRACE)
+    st = vlib.tlc("TraceRenderPool", "t.cfg", workers=1, timeout=300, files={"t.cfg": cfgtext, "trace.ndjson": bad})
+    rep = st.tagged("TRACE")
+    got = sorted(rep[0]["viol"], key=lambda v: (v["line"], v["kind"])) if rep else None
+    if got != want:
+        raise vlib.InfraError("trace self-test: planted violations %s, trace spec reported %s" % (want, got))
+    kinds = sorted({v["kind"] for v in want})
+    spec_kinds = sorted(set(re.findall(r'V\(n, "([A-Za-z.]+)"\)', open(os.path.join(vlib.SPEC, "TraceRenderPool.tla")).read())))
+    if kinds != spec_kinds:
+        raise vlib.InfraError("trace self-test does not cover every violation kind of the trace spec: %s vs %s" % (kinds, spec_kinds))
+    ok = vlib.tlc("TraceRenderPool", "t.cfg", workers=1, timeout=300,
+                  files={"t.cfg": cfgtext, "trace.ndjson": "".join(json.dumps(e) + "\n" for e in SELFTEST_CLEAN)})
+    rep = ok.tagged("TRACE")
+    if not rep or rep[0]["viol"] or rep[0]["lines"] != len(SELFTEST_CLEAN) or rep[0]["stillheld"] != 0:
+        raise vlib.InfraError("trace self-test: the clean trace was not accepted: %s" % rep)
+    ck.set("trace_selftest", "%d planted violations (all %d kinds, mixed event kinds) reported at their lines; clean trace accepted"
+           % (len(want), len(kinds)))
+
+
+class _Filtered:
+    """A harness result whose fail records are limited to `k` per signature over the whole check run, so that the bounded
+    number of VIOLATION lines vlib prints is shared by all signatures (incl. those that only the trace validation finds)."""
+
+    def __init__(self, p, seen, k=2):
+        out = []
+        for line in p.stdout.decode(errors="replace").splitlines():
+            if line.startswith('{') and '"kind":"fail"' in line:
+                try:
+                    sig = json.loads(line).get("sig")
+                except ValueError:
+                    sig = None
+                seen[sig] = seen.get(sig, 0) + 1
+                if seen[sig] > k:
+                    continue
+            out.append(line)
+        self.stdout = ("\n".join(out) + "\n").encode()
+        self.stderr = p.stderr
+        self.returncode = p.returncode
+
 
 def require_hooks():
     """The pool hooks of hooks/C10-pool.diff must be present in the repository under test."""
@@ -129,6 +223,7 @@ def main():
     thorough = ck.tier == "thorough"
     require_hooks()
     sc = vlib.scratch()
+    failseen = {}
 
     # ---- the harness is built while TLC runs ------------------------------------------------------
     def build():
@@ -233,7 +328,7 @@ def main():
         outs = list(ex.map(replay, caps))
         fxev, fxp = ffx.result()
     for cap, ev, p in outs:
-        s = vlib.harness_results(ck, p)
+        s = vlib.harness_results(ck, _Filtered(p, failseen))
         for k in total:
             total[k] += s.get(k, 0)
         for k, v in s["plan_kinds"].items():
@@ -248,7 +343,7 @@ def main():
         raise vlib.InfraError("fault plan kinds never replayed: %s" % missing)
     if total["hook_calls"] < total["renders"]:
         raise vlib.InfraError("pool hooks fired %d times for %d renders: hook silent" % (total["hook_calls"], total["renders"]))
-    sfx = vlib.harness_results(ck, fxp, "repository fixture: ")
+    sfx = vlib.harness_results(ck, _Filtered(fxp, failseen), "repository fixture: ")
     if sfx["renders"] < 100 or sfx["hook_calls"] < sfx["renders"]:
         raise vlib.InfraError("fixture run too small / hooks silent: %s" % sfx)
     traces.append(fxev)
@@ -273,7 +368,7 @@ def main():
     vlib.write_ndjson(bpath, bcases)
     bev = os.path.join(sc, "events-bytes.ndjson")
     p = vlib.run([binp, "bytespool", bpath, str(ck.seed), bev], check=False, timeout=1500)
-    sb = vlib.harness_results(ck, p, "bytes.Buffer pool: ")
+    sb = vlib.harness_results(ck, _Filtered(p, failseen), "bytes.Buffer pool: ")
     if sb["cases"] != len(bcases) or sb["renders"] != sum(len(c["runs"]) for c in bcases):
         raise vlib.InfraError("bytes-pool harness replayed %s of %d emitted behaviours" % (sb["cases"], len(bcases)))
     want_kinds = ["%s/%s/%s" % (e, k, o) for e in ("gohtml", "handler") for k in ("func", "templ") for o in ("ok", "fail")]
@@ -328,24 +423,25 @@ def main():
     ck.add_tlc(tr, "TraceRenderPool (pool events of the replays)")
     if min(rep["cnt"][k] for k in ("acquire", "existing", "flush", "release", "begin", "end", "get", "put")) < 50:
         raise vlib.InfraError("too few pool events of some kind recorded: %s" % rep["cnt"])
-    for v in rep["viol"][:20]:
+    bykind = {}
+    for v in rep["viol"]:
+        bykind[v["kind"]] = bykind.get(v["kind"], 0) + 1
+        if v["kind"].startswith("Harness"):
+            raise vlib.InfraError("inconsistent trace: %s at line %d" % (v["kind"], v["line"]))
+        if bykind[v["kind"]] > 3:
+            continue            # a few examples per kind; all are counted
         e = evs[v["line"] - 1]
         ctx = evs[max(0, v["line"] - 8): v["line"] + 2]
-        sig = v["kind"].split(".")[0] if v["kind"].startswith("Harness") else v["kind"]
-        if sig.startswith("Harness"):
-            raise vlib.InfraError("inconsistent trace: %s at line %d" % (v["kind"], v["line"]))
-        ck.violation(sig, "pool hook trace of the real code leaves the pool protocol at event %s" % json.dumps(e),
+        ck.violation(v["kind"], "pool hook trace of the real code leaves the pool protocol at event %s" % json.dumps(e),
                      {"violation": v, "events_around": ctx})
+    if bykind:
+        print("TRACE-VIOLATIONS property=C10 " + " ".join("%s=%d" % kv for kv in sorted(bykind.items())))
+    ck.set("trace_violations_by_kind", bykind)
     ck.set("pool_events_validated", len(lines))
     ck.set("pool_event_counts", rep["cnt"])
 
     # trace self-test: Put before the last use must be rejected by the trace spec
-    st = vlib.tlc("TraceRenderPool", "t.cfg", workers=1, timeout=300,
-                  files={"t.cfg": cfg("RenderPool_trace.cfg", NB="= 1"), "trace.ndjson": SYNTHETIC_BAD_TRACE})
-    srep = st.tagged("TRACE")
-    if not srep or [v["kind"] for v in srep[0]["viol"]] != ["ExclusiveBuffer.UseAfterRelease"]:
-        raise vlib.InfraError("trace self-test: a trace with Put before the flush was not rejected as UseAfterRelease")
-    ck.set("trace_selftest", "Put-before-flush trace rejected")
+    trace_selftest(ck, cfg("RenderPool_trace.cfg", NB="= 8"))
 
     ck.set("traces_validated_against_impl", total["renders"] + sfx["renders"] + sb["renders"])
     ck.set("exhaustive", True)
